@@ -806,6 +806,7 @@ impl<'a> Runtime<'a> {
         // Parameters live in their own lexical scope so block locals can shadow them.
         let param_ids = self.bound_param_ids(func_def.id, func_def.params);
         self.push_scope_with_capacity(func_def.params.params.len(), self.frame);
+        let has_frame = self.has_frame_arena();
         let param_scope =
             self.env.last_mut().expect("Parameter scope should exist immediately after push");
         for ((param, maybe_local), arg) in
@@ -817,6 +818,9 @@ impl<'a> Runtime<'a> {
                 }
                 other => other,
             };
+            // A parameter is a variable like any other: promote it like `make` does, so that
+            // a frame reset inside the callee (loop iteration) cannot free what it points to.
+            let arg = if has_frame { arg.promote(&self.pool, self.frame) } else { arg };
             param_scope.push(LocalSlot { id: maybe_local, name: param, value: arg });
         }
 
